@@ -118,7 +118,8 @@ Definition set_sk (st : state) (i : nat) (n : sknode) : state :=
 
 (* a process that has not called set_seed: the global generator has an unknown (entropy) root named k *)
 Definition init_state (k : nat) : state :=
-  mkState 0 (fun _ => (Entropy k, [])) (fun _ => None) (fun _ => None) 5555.
+  mkState 0 (fun g => match g with GGlob 0 => (Entropy (S k), []) | _ => (Entropy 0, []) end)   (* other objects: not allocated yet *)
+          (fun _ => None) (fun _ => None) 5555.
 
 (* utils/random.set_seed: rebinds __global_rg to a *new* object default_rng(s)
    (objects that captured the old one keep it) *)
